@@ -34,11 +34,25 @@ def main(mod, argv=None):
 
     def evaluate(cs):
         terms, infos, skipped = [], [], []
-        for c in cs:
+
+        def one(c):
             try:
-                t, inf = mod.case_term(c)
+                return mod.case_term(c)
             except Exception as e:  # implementation crashed in an unforeseen way: report, never hide
-                t, inf = None, {"harness_exception": "%s: %s" % (type(e).__name__, e)}
+                return None, {"harness_exception": "%s: %s" % (type(e).__name__, e)}
+        try:
+            import cobra  # noqa: F401  (import once in the parent: the forked children share it)
+            import cobra.flux_analysis  # noqa: F401
+            import cobra.sampling  # noqa: F401
+        except Exception:  # noqa
+            pass
+        # forked children: GLPK now and then aborts the whole process on an internal assertion (bflib/sgf.c)
+        for kind, val in K.map_isolated(one, cs):
+            if kind == "ok":
+                t, inf = val
+            else:
+                t, inf = None, {"skipped": True, "aborted": val,
+                                "stats": {"verdict": "process aborted by the solver library or timed out"}}
             infos.append(inf)
             terms.append(t)
         idx = [i for i, t in enumerate(terms) if t is not None]
